@@ -120,6 +120,21 @@ func (uh *UpstreamHost) Available() bool {
 	return !uh.Down() && !uh.Full()
 }
 
+// reserve atomically counts one more connection on uh unless that would
+// exceed its maximum connections. It reports whether a slot was taken; the
+// caller must give it back by decrementing uh.Conns.
+func (uh *UpstreamHost) reserve() bool {
+	for {
+		n := atomic.LoadInt64(&uh.Conns)
+		if uh.MaxConns > 0 && n >= uh.MaxConns {
+			return false
+		}
+		if atomic.CompareAndSwapInt64(&uh.Conns, n, n+1) {
+			return true
+		}
+	}
+}
+
 // ServeHTTP satisfies the httpserver.Handler interface.
 func (p Proxy) ServeHTTP(w http.ResponseWriter, r *http.Request) (int, error) {
 	// start by selecting most specific matching upstream config
@@ -252,11 +267,29 @@ func (p Proxy) ServeHTTP(w http.ResponseWriter, r *http.Request) (int, error) {
 		//   The call to proxy.ServeHTTP can theoretically panic.
 		//   To prevent host.Conns from getting out-of-sync we thus have to
 		//   make sure that it's _always_ correctly decremented afterwards.
+		//
+		//   Select() only saw the host below its connection limit; concurrent
+		//   requests may have taken the remaining slots since then, so the
+		//   slot is reserved atomically and the host is treated as
+		//   unavailable if that fails.
+		reserved := true
 		func() {
-			atomic.AddInt64(&host.Conns, 1)
+			if !host.reserve() {
+				reserved = false
+				return
+			}
 			defer atomic.AddInt64(&host.Conns, -1)
 			backendErr = proxy.ServeHTTP(w, outreq, downHeaderUpdateFn)
 		}()
+		if !reserved {
+			if backendErr == nil {
+				backendErr = errors.New("no hosts available upstream")
+			}
+			if !keepRetrying(backendErr) {
+				break
+			}
+			continue
+		}
 
 		// if no errors, we're done here
 		if backendErr == nil {
